@@ -50,7 +50,14 @@ def budget(tier):
 
 def gen_case(rng, tier, i):
     ml = rng.choice([4, 6, 8, 12, 12]) if tier == "quick" else rng.choice([8, 12, 20, 30, 40])
-    d = D.gen_doc(rng, max_lines=ml, same_id_groups=False)
+    # every 4th case draws the record types of its custom records from the wide pool (several characters, made
+    # of / extending predefined codes, ...) and has more custom records; decided by the case number, so that the
+    # other cases are the ones generated before this was added
+    wide = i % 4 == 3
+    if wide:
+        d = D.gen_doc(rng, max_lines=ml, same_id_groups=False, custom_rt=D.CUSTOM_RT_WIDE, custom_weight=3)
+    else:
+        d = D.gen_doc(rng, max_lines=ml, same_id_groups=False)
     return {"version": d["version"], "lines": d["lines"], "features": d["features"], "rot": rng.randrange(4)}
 
 
@@ -66,6 +73,8 @@ def tags(case):
     for l in case["lines"]:
         rt = l.split("\t")[0]
         t.append("rt:" + (rt if rt in "HSLCPEFGOU" and len(rt) == 1 else ("#" if rt.startswith("#") else "custom")))
+        if not rt.startswith("#") and len(rt) > 1:
+            t.append("custom-rt:of-codes" if all(c in "HSLCPEFGOU#" for c in rt) else "custom-rt:long")
         for f in l.split("\t")[1:]:
             m = D.TAG_RE.match(f) if not l.startswith("#") else None
             if m:
